@@ -169,7 +169,8 @@ def obs_C07(j, case):
         if isinstance(f, dict) and "ok" in f:
             ok = f["ok"]
             import os
-            files = sorted(os.path.normpath(p) for p, _ in ok)
+            # every written path, and the content of the dependency files (their targets are emitted paths too)
+            files = sorted((os.path.normpath(p), c if p.endswith(".d") else None) for p, c in ok)
         else:
             files = f
     return [outcome(j), res, files]
